@@ -17,6 +17,7 @@ using namespace muduo::net;
 EventLoopThread::EventLoopThread(const ThreadInitCallback& cb,
                                  const string& name)
   : loop_(NULL),
+    finished_(false),
     exiting_(false),
     thread_(std::bind(&EventLoopThread::threadFunc, this), name),
     mutex_(),
@@ -53,7 +54,9 @@ EventLoop* EventLoopThread::startLoop()
   EventLoop* loop = NULL;
   {
     MutexLockGuard lock(mutex_);
-    while (loop_ == NULL)
+    // finished_: the thread has already left loop() (somebody quit the loop
+    // before we looked) - loop_ will never be set again, do not wait for it
+    while (loop_ == NULL && !finished_)
     {
       cond_.wait();
     }
@@ -84,5 +87,7 @@ void EventLoopThread::threadFunc()
   //assert(exiting_);
   MutexLockGuard lock(mutex_);
   loop_ = NULL;
+  finished_ = true;
+  cond_.notifyAll();
 }
 
